@@ -372,8 +372,21 @@ class Exec:
             if callee is None or callee.body is None:
                 raise AnalysisBroken("body of %s not available" % name)
             return self._inline(callee, args[1:] if e.get("member_call") else args)
+        if name == "copy_n" and len(args) == 3:
+            first, n_, dest = (self.ev(a) for a in args)
+            if isinstance(first, ArrPtr) and isinstance(n_, int):
+                e = dict(e)
+                name = "copy"
+                # same as std::copy(first, first + n, dest)
+                last = ArrPtr(first.node, first.field, first.off + n_)
+                return self._copy(name, first, last, dest, e)
         if name in ("copy", "copy_backward", "move", "move_backward") and len(args) == 3:
             first, last, dest = (self.ev(a) for a in args)
+            return self._copy(name, first, last, dest, e)
+        return self.call_rest(e, name, args)
+
+    def _copy(self, name, first, last, dest, e):
+        if True:
             if not all(isinstance(x, ArrPtr) for x in (first, last, dest)) or first.node is not last.node or first.field != last.field:
                 raise AnalysisBroken("std::%s on something that is not a node array at line %s" % (name, e.get("l")))
             n = last.off - first.off
@@ -393,6 +406,7 @@ class Exec:
                 self.check_index(dest.node, dest.field, di, e)
                 dst[di] = src[si]
             return ArrPtr(dest.node, dest.field, dest.off - n)
+    def call_rest(self, e, name, args):
         if name == "key" and e.get("member_call"):
             obj = self.ev(args[0])
             idx = self.ev(args[1])
